@@ -170,6 +170,7 @@ def do(op: dict) -> str:
     if o == "solve":
         kind, sv = SOLVERS[op["sid"]]
         it0 = int(sv.iteration)
+        np0 = len(getattr(sv, "_verif_permutations", []))
         LOG.clear()
         try:
             sv.solve(max_iterations=op["k"])
@@ -182,7 +183,7 @@ def do(op: dict) -> str:
                 saves.append(int(m.rsplit(" ", 1)[1]))
         extra = ""
         if kind == "semi" and hasattr(sv, "_verif_permutations"):
-            extra = " perms=" + ";".join("_" if q is None else ",".join(str(int(x)) for x in q) for q in sv._verif_permutations)
+            extra = " perms=" + ";".join("_" if q is None else ",".join(str(int(x)) for x in q) for q in sv._verif_permutations[np0:])
         return state_line(kind, sv, conv, int(sv.iteration) - it0, saves) + extra
     raise ValueError(f"unknown op {o}")
 
